@@ -5,7 +5,9 @@
    evaluate_estimation_circuits), tied to the implementation by harness/c15.py on every run.
    [rank i ts] = number of measured tasks before position i = position of task i in the runner's batch. *)
 Require Import Coq.ZArith.ZArith Coq.QArith.QArith Coq.Lists.List Coq.Sorting.Permutation Coq.Sorting.Sorted.
-Require Import OQ.Stats.Estimation OQ.Stats.EstimationProofs.
+Require Import OQ.Base.Ring OQ.Base.Sums OQ.Base.Mat OQ.Pauli.Algebra OQ.Pauli.Den OQ.Pauli.Matrix.
+Require OQ.Base.Bits.
+Require Import OQ.Stats.Estimation OQ.Stats.EstimationProofs OQ.Stats.EstimationCases.
 Import ListNotations.
 Local Open Scope nat_scope.
 
@@ -112,16 +114,45 @@ Theorem estimate_on_basis_states : forall (C : Type) (state : C -> bits) (ts : l
 Proof. exact @estimate_basis_at. Qed.
 Print Assumptions estimate_on_basis_states.
 
-(* Full clause: for every circuit c and operator O, calculate_exact_expectation_values returns
-   Re <psi_c| O |psi_c> (the state's quadratic form with the operator).  That needs the wavefunction semantics of
-   circuits (property C09) and is not modelled here; the harness oracle checks it on the implementation with dense
-   matrices (kind exact-general).  Proved part: on a computational basis state b and an Ising operator the quadratic
-   form is sum_k c_k * eps_k(b) (= exact_on_basis, compared with the implementation in kind exact-basis), and it
-   equals the sum of the values estimated by averaging. *)
-Theorem exact_is_quadratic_form_partial : forall o b vals,
+(* ---------------------------------------------------------------- exact expectation values *)
+(* calculate_exact_expectation_values / get_exact_expectation_values, modelled on top of property C09's
+   get_expectation (Pauli/Matrix.v) over any commutative ring K with conjugation; [wavefunction c] = number of qubits
+   and amplitudes the simulator computes for circuit c, [re] = ".real", [nzb] = the exact test "data != 0".
+   [quadratic_form K n s v] = sum_i conj(v_i) * sum_k (sden n s)[i][k] * v_k, with [sden n s] the matrix the operator
+   denotes on n qubits (Pauli/Den.v).
+   For every list of tasks, every simulator, every state (normalised or not) and every well-formed operator that fits
+   its task's state: one result per task, in task order, each the real part of the quadratic form of the state its
+   own circuit prepares with its own operator *)
+Theorem exact_is_quadratic_form : forall (K : cring) (nzb is_zero : K -> bool),
+  (forall x, nzb x = false -> x = c0) -> nzb c0 = false ->
+  forall (re : K -> K) (C : Type) (wavefunction : C -> nat * Vec K) (ts : list (xtask K C)),
+  (forall t, In t ts -> sum_ok (fst (wavefunction (xcirc t))) (xop t)) ->
+  calculate_exact nzb is_zero re wavefunction ts
+  = Some (map (fun t => [re (quadratic_form K (fst (wavefunction (xcirc t))) (xop t) (snd (wavefunction (xcirc t))))]) ts).
+Proof. exact calculate_exact_form. Qed.
+Print Assumptions exact_is_quadratic_form.
+
+(* an operator acting beyond the width of its task's state makes the whole call fail *)
+Theorem exact_rejects_wide_operator : forall (K : cring) (nzb is_zero : K -> bool) (re : K -> K) (C : Type)
+  (wavefunction : C -> nat * Vec K) (ts : list (xtask K C)) t, In t ts ->
+  fst (wavefunction (xcirc t)) < sum_width (xop t) ->
+  calculate_exact nzb is_zero re wavefunction ts = None.
+Proof. exact calculate_exact_rejects. Qed.
+Print Assumptions exact_rejects_wide_operator.
+
+(* basis-state corollary: in the computational basis state x of n qubits the quadratic form of an Ising operator is
+   sum_k c_k * eps_k(bits of x), the same eigenvalue [eps] as in the averaging theorems above ... *)
+Theorem exact_on_basis_state : forall (K : cring) n (s : psum K) x, x < 2 ^ n -> sum_ok n s -> Forall (ising_term K) s ->
+  quadratic_form K n s (basis_vec K x)
+  = lsum s (fun t => cmul (Algebra.coef t) (of_Z (eps (keys (Algebra.tops t)) (Bits.bits n x)))).
+Proof. exact quadratic_form_basis_ising. Qed.
+Print Assumptions exact_on_basis_state.
+
+(* ... and that sum equals the sum of the values estimated by averaging on the same basis state (rational model) *)
+Theorem exact_on_basis_is_sum_of_estimates : forall o b vals,
   Forall2 Qeq vals (basis_values o b) -> (qsum vals == exact_on_basis o b)%Q.
 Proof. exact qsum_basis_values. Qed.
-Print Assumptions exact_is_quadratic_form_partial.
+Print Assumptions exact_on_basis_is_sum_of_estimates.
 
 (* binding symbol maps: task i gets its own map i, operator and shots untouched, nothing else is produced *)
 Theorem bind_tasks_pointwise : forall (C M : Type) (bind : C -> M -> C) (ts : list (task C)) (maps : list M) i t',
@@ -159,3 +190,12 @@ Proof. vm_compute. reflexivity. Qed.
 Example demo_basis_premises_met :
   exists e, get_expectation_values [z (1#2) [0%nat]; z (-3#2) [1%nat; 0%nat]; z 2 []] (repeat [true; false; true] 7) = Ok e.
 Proof. eexists. vm_compute. reflexivity. Qed.
+
+(* exact values over the Gaussian rationals: state |10> and the state (|00> + |01> + |10> + i|11>)/2, one task each *)
+Example exact_premises_met :
+  exactm_eqb [(2%nat, [xnum 0 0 0; xnum 0 0 0; xnum 1 0 0; xnum 0 0 0]);
+              (2%nat, [xnum 1 0 1; xnum 1 0 1; xnum 1 0 1; xnum 0 1 1])]
+             [([xterm 3 0 0 [(0%nat, PZ)]; xterm 1 0 1 [(0%nat, PZ); (1%nat, PZ)]; xterm 5 0 0 []], 0%nat);
+              ([xterm 1 2 1 [(0%nat, PY); (1%nat, PZ)]; xterm 3 0 0 [(1%nat, PX)]], 1%nat)]
+             (Some [[xnum 3 0 1]; [xnum 5 0 2]]) = true.
+Proof. vm_compute. reflexivity. Qed.
